@@ -1216,6 +1216,15 @@ impl<const STREAMING: bool> GroupValues for GroupValuesColumn<STREAMING> {
                 let fresh = Self::build_group_columns(&self.schema)?;
                 let group_values = mem::replace(&mut self.group_values, fresh);
 
+                // Every group was emitted, so the lookup structures that map
+                // hashes to the (now gone) group indices must be emptied too;
+                // otherwise a later `intern` would resolve keys to stale rows.
+                self.map.clear();
+                if !STREAMING {
+                    self.group_index_lists.clear();
+                    self.emit_group_index_list_buffer.clear();
+                }
+
                 group_values
                     .into_iter()
                     .map(|v| v.build())
